@@ -200,7 +200,9 @@ def events_of(F, fn, p, local_roles):
     innermost first), so it does not matter through which helper a byte reaches the hash."""
     calls = tbl.residual_calls(p)
     role_calls = [e for e in calls if role_of_event(e, local_roles) is not None]
-    term = p.ret if p.status == "return" else (role_calls[-1]["result"] if role_calls else ("param", 1, "u64"))
+    # on a path cut at the loop bound the latest state is the result of the last hashing step taken (a role call or an FNV-1a round)
+    steps = [e for e in calls if role_of_event(e, local_roles) is not None or (e["key"] or "").endswith("::wrapping_mul")]
+    term = p.ret if p.status == "return" else (steps[-1]["result"] if steps else ("param", 1, "u64"))
     dec = decode_state(p, term, local_roles) if term is not None else None
     if dec is None:
         # not a recognisable chain: report the calls in program order (diagnostic only) and say so
@@ -224,10 +226,17 @@ def events_of(F, fn, p, local_roles):
     return evs, threaded
 
 
-def arms_of(F, fn, adt_variants, subject_arg, roles=None):
-    """-> {variant name: sorted list of event tuples over the explored iteration counts}"""
+def _strip_as(pth):
+    return tuple(x for x in pth if not x.startswith("as "))
+
+
+def arms_of(F, fn, adt_variants, subject_arg, roles=None, data_variants=()):
+    """-> {variant name: sorted list of (status, stream, kinds)} over the explored iteration counts; `kinds` says which variant every nested
+    `Data` the path dispatched on has (so a stream can be judged against the shape it was produced for)"""
     roles = roles or {}
-    # private helpers (loops over children, patch helpers) are analysed in place; the role functions themselves stay calls
+
+    # everything in the hash module that is not a role function (the node hasher itself, the byte/str folds) is analysed in place:
+    # it does not matter how the work is divided into helper functions
     def inl(f, ev):
         if f.crate != "postcard_schema" or "::key::hash::" not in f.canon:
             return False
@@ -239,40 +248,93 @@ def arms_of(F, fn, adt_variants, subject_arg, roles=None):
             s = ev["snap"][1] if len(ev.get("snap") or []) > 1 else None
             return bool(s and s[0] == "agg" and s[1] == "array" and s[5] and all(sym.is_c(x) for x in s[5]))
         return False
-    eng = sym.Engine(F, max_visits=3, max_depth=10, inline=inl)
+    eng = sym.Engine(F, max_visits=3, max_depth=12, max_paths=6000, inline=inl)
     arms = {}
     bad = []
     for p in eng.run(fn):
         if p.status not in ("return", "cut"):
             bad.append("path ends in %s" % p.status)
             continue
-        # which variant?
         k = None
+        kinds = {}
         for atom, v in p.tagfacts.items():
             if atom[0] == "tag" and isinstance(v, int):
                 fp = field_path(atom[1])
-                if fp and fp[0] == "arg%d" % subject_arg[0] and tuple(fp[1:]) == subject_arg[1]:
+                if not fp or fp[0] != "arg%d" % subject_arg[0]:
+                    continue
+                rel = _strip_as(fp[1:])
+                if rel == tuple(subject_arg[1]):
                     k = v
+                elif rel and rel[-1] == "data" and v < len(data_variants):
+                    kinds[rel] = data_variants[v]
+                else:
+                    kinds[rel] = v
         name = adt_variants[k] if (k is not None and k < len(adt_variants)) else "*"
         evs, ok = events_of(F, fn, p, roles)
         if not ok:
             bad.append("arm %s: the running hash state is not threaded through every update / returned" % name)
-        arms.setdefault(name, set()).add((p.status, tuple(evs)))
-    return {k: sorted(v) for k, v in arms.items()}, bad
+        arms.setdefault(name, set()).add((p.status, tuple(evs), tuple(sorted(kinds.items(), key=repr))))
+    return {k: sorted(v, key=repr) for k, v in arms.items()}, bad
 
 
 def strip_variant_prefix(arms):
-    """drop the leading 'as Variant' / 'data' path elements that differ only by how the subject is reached"""
-    def fix_path(pth):
-        return tuple(x for x in pth if not x.startswith("as ") and x not in ("data",))
-
+    """drop the 'as Variant' path elements (how a field is reached is not part of what is hashed)"""
     def fix(ev):
         if ev[0] == "Name":
-            return ("Name", fix_path(ev[1]))
+            return ("Name", _strip_as(ev[1]))
         if ev[0] == "Rec":
-            return ("Rec", ev[1], tuple(fix_path(x) for x in ev[2]))
+            return ("Rec", ev[1], tuple(_strip_as(x) for x in ev[2]))
         return ev
-    return {k: [(st, tuple(fix(e) for e in evs)) for st, evs in v] for k, v in arms.items()}
+    return {k: [(st, tuple(fix(e) for e in evs), kinds) for st, evs, kinds in v] for k, v in arms.items()}
+
+
+def parse_data(evs, i, role, base, kinds, cut):
+    """the stream of one `Data` body at path `base`, for the kind this path dispatched on: its tag, then its children in order.
+    -> (next index, None) or (None, reason); on a path cut at the loop bound the stream may stop early"""
+    kind = dict(kinds).get(base)
+    if kind not in TAGS[role]:
+        return None, "no dispatch on the Data at %s" % "/".join(base)
+    if i >= len(evs):
+        return (i, None) if cut else (None, "nothing hashed for the %s body at %s" % (kind, "/".join(base)))
+    want = TAGS[role][kind]
+    if evs[i] != ("Tag", want):
+        return None, "%s %s body starts with %r, published tag is 0x%02X" % (role, kind, evs[i], want)
+    i += 1
+    rec = lambda p_: ("Rec", "sdm", (base + p_,))
+    if kind == "Newtype":
+        if i < len(evs) and evs[i] == rec(("0",)):
+            return i + 1, None
+        return (i, None) if cut and i >= len(evs) else (None, "%s newtype body must hash its inner schema" % role)
+    n = 0
+    if kind == "Tuple":
+        while i < len(evs) and evs[i] == rec(("0", "[%d]" % n)):
+            i += 1
+            n += 1
+    if kind == "Struct":
+        while i + 1 < len(evs) and evs[i] == ("Name", base + ("0", "[%d]" % n, "name")) and evs[i + 1] == rec(("0", "[%d]" % n, "ty")):
+            i += 2
+            n += 1
+    return i, None
+
+
+def parse_node(name, evs, kinds, cut):
+    """ordering discipline of the Struct / Enum arms of the node hasher -> reason or None"""
+    if name == "Struct":
+        i, why = parse_data(evs, 0, "struct", ("data",), kinds, cut)
+    else:
+        if not evs or evs[0] != ("Tag", TAGS["sdm"]["Enum"]):
+            return "the enum tag 0x%02X is not the first thing hashed" % TAGS["sdm"]["Enum"]
+        i, why, n = 1, None, 0
+        while i < len(evs) and evs[i] == ("Name", ("variants", "[%d]" % n, "name")):
+            i, why = parse_data(evs, i + 1, "variant", ("variants", "[%d]" % n, "data"), kinds, cut)
+            if why:
+                break
+            n += 1
+    if why:
+        return why
+    if i < len(evs) and not (cut and i >= len(evs)):
+        return "unexpected element %r at position %d of the stream (a type name hashed, a child skipped or out of order)" % (evs[i], i)
+    return None
 
 
 def run(run_, ctx):
@@ -281,7 +343,9 @@ def run(run_, ctx):
     sc = F.crate("postcard_schema")
     run_.configs.append("A")
     run_.bodies += len(sc.fns)
-    roles = hash_roles(sc)
+    # role functions = the node hasher (both copies) and the byte / str folds, found by signature; every other function of the hash
+    # module (struct/variant/field hashers, tag helpers, shared bodies) is a private helper and is analysed in place
+    roles = {cn: r for cn, r in hash_roles(sc).items() if r[0] in ("sdm", "update", "update_str")}
 
     def by_role(role, owned):
         fs = [F.fn_by_canon(cn) for cn, r in roles.items() if r[0] == role and r[1] == owned]
@@ -293,71 +357,71 @@ def run(run_, ctx):
     dat = [v["name"] for v in sc.adts["postcard_schema::schema::Data"]["variants"]]
     odmt = [v["name"] for v in sc.adts["postcard_schema::schema::owned::OwnedDataModelType"]["variants"]]
     odat = [v["name"] for v in sc.adts["postcard_schema::schema::owned::OwnedData"]["variants"]]
-    pairs = [("sdm", dmt, odmt, ()), ("struct", dat, odat, ()), ("variant", dat, odat, ("data",)), ("field", ["*"], ["*"], ("?",))]
-    ntags = 0
-    const_arms = {}
-    for role, vb, vo, sub in pairs:
-        fb, fo = by_role(role, False), by_role(role, True)
-        if not fb or not fo:
-            continue
-        ab, badb = arms_of(F, fb, vb, (roles[fb.canon][2], sub), roles)
-        ao, bado = arms_of(F, fo, vo, (roles[fo.canon][2], sub), roles)
-        for b in badb + bado:
-            run_.bad("H", "%s threading" % role, b, fb.where())
+    fb, fo = by_role("sdm", False), by_role("sdm", True)
+    ab = {}
+    if fb and fo:
+        ab, badb = arms_of(F, fb, dmt, (roles[fb.canon][2], ()), roles, dat)
+        ao, bado = arms_of(F, fo, odmt, (roles[fo.canon][2], ()), roles, odat)
+        for b in sorted(set(badb + bado)):
+            run_.bad("H", "sdm threading", b, fb.where())
         ab, ao = strip_variant_prefix(ab), strip_variant_prefix(ao)
-        const_arms[role] = (fb, ab)
+        run_.note("H: %d paths of the const node hasher, %d of the owned one" % (sum(len(v) for v in ab.values()), sum(len(v) for v in ao.values())))
+        seen_kinds = {"struct": {}, "variant": {}}
         for name in sorted(set(ab) | set(ao)):
-            key = "%s::%s" % (role, name)
+            key = "sdm::%s" % name
             x, y = ab.get(name), ao.get(name)
             if x is None or y is None:
                 run_.bad("H", key, "arm exists in only one of the two hashers", (fb if x is None else fo).where())
                 continue
-            run_.check(x == y, "H", key, "compile-time and run-time hashers feed different byte streams for this node kind", fo.where(),
-                       expected=[repr(e) for e in x][:3], found=[repr(e) for e in y][:3],
-                       detail="same tag/name/recursion stream in both hashers")
+            only_c = [e for e in x if e not in y]
+            only_o = [e for e in y if e not in x]
+            run_.check(not only_c and not only_o, "H", key, "compile-time and run-time hashers feed different byte streams for this node kind", fo.where(),
+                       expected=[repr(e) for e in only_c][:3], found=[repr(e) for e in only_o][:3],
+                       detail="same tag/name/recursion stream in both hashers on all %d paths" % len(x))
             # T: tag + order discipline on the const copy (the owned one is equal by H)
-            if role in TAGS:
-                want = TAGS[role].get(name)
-                if role == "sdm" and name == "Struct":
-                    okt = all(evs and evs[0][0] == "Rec" and evs[0][1] == "struct" for st, evs in x)
-                    run_.check(okt, "T", key, "a struct node must be hashed by its data shape only (type name bound but not hashed)", fb.where(),
-                               detail="delegates to the struct-data hasher; type name unused")
-                    continue
-                tag_first = role != "variant"
+            want = TAGS["sdm"].get(name)
+            allprobs = []
+            for st, evs, kinds in x:
                 probs = []
-                for st, evs in x:
+                if any(e[0] in ("Other", "Bytes", "Dropped") for e in evs):
+                    probs.append("unexpected hashed data / call: %s" % [e for e in evs if e[0] in ("Other", "Bytes", "Dropped")][:2])
+                elif name in ("Struct", "Enum"):
+                    why = parse_node(name, list(evs), kinds, st == "cut")
+                    if why:
+                        probs.append(why)
+                    for pth, kd in kinds:
+                        if pth and pth[-1] == "data" and isinstance(kd, str):
+                            role = "struct" if name == "Struct" else "variant"
+                            seen_kinds[role].setdefault(kd, []).append(why)
+                else:
                     tags = [e for e in evs if e[0] == "Tag"]
-                    probs = []
                     if len(tags) != 1 or tags[0][1] != want:
                         probs.append("tag bytes %s, published tag is 0x%02X" % ([hex(t[1]) for t in tags], want if want is not None else -1))
-                    if tag_first and evs and evs[0][0] != "Tag":
+                    if evs and evs[0][0] != "Tag":
                         probs.append("the tag is not the first thing hashed")
-                    if not tag_first and (len(evs) < 2 or evs[0][0] != "Name" or evs[0][1] != ("name",) or evs[1][0] != "Tag"):
-                        probs.append("a variant must hash its name, then its tag, then its payload")
-                    if any(e[0] in ("Other", "Bytes", "Dropped") for e in evs):
-                        probs.append("unexpected hashed data / call: %s" % [e for e in evs if e[0] in ("Other", "Bytes", "Dropped")][:2])
-                    if role == "sdm" and name == "Enum" and any(e[0] == "Name" for e in evs):
-                        probs.append("the enum's own type name is hashed")
-                    if probs:
-                        break
-                ntags += 1
-                run_.check(not probs, "T", key, probs[0] if probs else "tag 0x%02X, tag-then-children in order" % want, fb.where(), found=probs)
-    run_.floor("H", 33)
+                    if any(e[0] == "Name" for e in evs):
+                        probs.append("a name is hashed in an arm that has none")
+                allprobs += probs
+            probs = sorted(set(allprobs))
+            run_.check(not probs, "T", key, probs[0] if probs else "tag 0x%02X, tag-then-children in order" % (want or 0), fb.where(), found=probs[:4])
+        # one instance per (body role, kind): at least one explored path has this kind, and every such path obeys the discipline
+        for role in ("struct", "variant"):
+            for kd in TAGS[role]:
+                whys = seen_kinds[role].get(kd)
+                bad_ = [w for w in (whys or []) if w]
+                run_.check(bool(whys) and not bad_, "T", "%s::%s" % (role, kd),
+                           (bad_[0] if bad_ else "no explored path hashes a %s body of kind %s" % (role, kd)), fb.where(),
+                           detail="tag 0x%02X; %s" % (TAGS[role][kd], "name, tag, payload in order" if role == "variant" else "tag, then children in order"))
+    run_.floor("H", 25)
     run_.floor("T", 33)
     # distinctness
     allt = [v for r in TAGS.values() for v in r.values()]
     run_.check(len(set(allt)) == len(allt) == 33, "T", "tags pairwise distinct", "published tag table has duplicates")
-    # Map key-then-val, named field name-then-type (read off the const copy)
-    if "sdm" in const_arms:
-        fb, ab = const_arms["sdm"]
+    # Map key-then-val (read off the const copy); field name-then-type is part of the Struct-body grammar above
+    if fb and ab:
         mp = ab.get("Map", [])
-        okm = mp and all([e for e in evs if e[0] == "Rec"] == [("Rec", "sdm", (("key",),)), ("Rec", "sdm", (("val",),))] for st, evs in mp)
+        okm = mp and all([e for e in evs if e[0] == "Rec"] == [("Rec", "sdm", (("key",),)), ("Rec", "sdm", (("val",),))] for st, evs, kinds in mp)
         run_.check(bool(okm), "T", "sdm::Map child order", "a map must hash its key schema before its value schema", fb.where(), found=[repr(x) for x in mp])
-    if "field" in const_arms:
-        fb, ab = const_arms["field"]
-        nf = list(ab.values())[0] if ab else []
-        okn = nf and all(list(evs) == [("Name", ("name",)), ("Rec", "sdm", (("ty",),))] for st, evs in nf)
-        run_.check(bool(okn), "T", "field name-then-type", "a named field must hash its name and then its type", fb.where(), found=[repr(x) for x in nf])
     # ---- F / P: the FNV-1a primitives and the plumbing, as hand-written specifications in the vocabulary of the semantic summaries ------
     keep = set(roles)                       # role functions stay calls; everything else local is analysed in place
     inl = lambda f, ev: f.crate == "postcard_schema" and f.canon not in keep
